@@ -4,6 +4,7 @@ import (
 	"bytes"
 	"fmt"
 	"strings"
+	"sync/atomic"
 )
 
 // Array wraps Object array and implements Object interface.
@@ -13,6 +14,40 @@ type Array struct {
 
 	// offset holds our iteration-offset.
 	offset int
+
+	// depth is how deeply containers are nested in this array,
+	// counting the array itself, once that is known (0 = not yet).
+	depth int32
+}
+
+// Depth returns how deeply arrays and hashes are nested inside the given
+// object: zero for anything which is not a container, one for a container
+// of plain values, and so on.
+func Depth(o Object) int {
+	switch c := o.(type) {
+	case *Array:
+		return c.Depth()
+	case *Hash:
+		return c.Depth()
+	}
+	return 0
+}
+
+// Depth returns how deeply containers are nested in this array, counting
+// the array itself.  The members of an array never change, so the answer
+// is worked out once.
+func (ao *Array) Depth() int {
+	if d := atomic.LoadInt32(&ao.depth); d != 0 {
+		return int(d)
+	}
+	d := 0
+	for _, e := range ao.Elements {
+		if c := Depth(e); c > d {
+			d = c
+		}
+	}
+	atomic.StoreInt32(&ao.depth, int32(d+1))
+	return d + 1
 }
 
 // Type returns the type of this object.
